@@ -407,6 +407,7 @@ def vm_crosscheck(prop, cases, rundir, log, skip_lines=(), limit=400):
         if len(p) != 4:
             continue
         body.append("(%s%%Z, %s, %s)" % (p[1], coq_of_sx(p[2]), coq_of_sx(p[3])))
+    os.makedirs(os.path.join(COQ, "Cases"), exist_ok=True)
     vfile = os.path.join(COQ, "Cases", "cases_%s.v" % pid)
     with open(vfile, "w") as f:
         f.write("From Verif Require Import Base.Sx %s.\n" % mod)
